@@ -41,6 +41,17 @@ enum Outcome {
     OC_ABANDON = 5
 };
 
+// A symbolic minterm in variable space
+struct SymMT {
+    std::vector<int> from;  // [v], -1 = don't care
+    std::vector<int> to;    // [v], -1 = don't care, -2 = don't change
+    Val val;
+};
+typedef SymMT SymMask;
+struct ForRT;
+bool symMatches(const Dom &D, bool rel, const SymMT &m, long sf, long st);
+void symToMinterm(const ForRT &F, const SymMT &s, MEDDLY::minterm &m);
+
 // ----------------------------------------------------------------------
 // Runtime twins
 // ----------------------------------------------------------------------
@@ -78,6 +89,7 @@ struct IterSlot {
     // expected visit sequence: (from state, to state, value)
     struct Item { long from; long to; Val v; };
     std::vector<Item> expect;
+    std::vector<int> order;     // forest order when opened
     size_t pos = 0;
 };
 
@@ -212,6 +224,29 @@ class World {
         void opRebuild(const Step &s);
         void opCounts(const Step &s);
         void opCardinality(const Step &s);
+        void opIterate(const Step &s);
+        void opIterOpen(const Step &s);
+        void opIterStep(const Step &s);
+        void opUnary(const Step &s);
+        void opRange(const Step &s);
+        void opCross(const Step &s);
+        void opImage(const Step &s);
+        void opVMMult(const Step &s);
+        void opReach(const Step &s);
+        void opSatPart(const Step &s);
+        void opReorder(const Step &s);
+        void opIO(const Step &s);
+        void opIndexSet(const Step &s);
+        void opMisuse(const Step &s);
+        void opKillForest(const Step &s);
+        void opKillDomain(const Step &s);
+        void opNewForest(const Step &s);
+        void opRestart(const Step &s);
+        bool sameOrder(int fa, int fb) const;
+        bool orderChanged(const ForRT &F) const;
+        bool checkVisit(const ForRT &F, const MEDDLY::minterm &m,
+                const IterSlot::Item &want, size_t pos);
+        void stopLibraryAndEdges();
 
         void finishResult(const Step &s, EdgeSlot* res, const std::string &family);
         void markErrored(int f);
